@@ -6,7 +6,10 @@
 (* The ledger's answer is the number a direct CalculateBalance returns at  *)
 (* the time of the request (recorded as `ref`, negative when the ledger    *)
 (* has no answer); the specification decides whether the reply must be     *)
-(* that number, an older cached one, or a refusal.                         *)
+(* that number, an older cached one, or a refusal.  Where the driver holds *)
+(* a save goroutine back (a gate in front of the real cache's SaveBalance) *)
+(* that request is an asynchronous step and `Land` is the goroutine        *)
+(* landing: observation O-B2 on the real code.                             *)
 (***************************************************************************)
 EXTENDS BalanceCache, Json, Sequences
 
@@ -29,13 +32,23 @@ EvBal(ev) ==
          /\ reply' = [res |-> "processing", a |-> ev.a, v |-> 0, c |-> 0]
          /\ UNCHANGED <<bcache, pend>>
          /\ obs' = (ev.res = "processing")
-    ELSE /\ BalanceStep(ev.a, IF ev.ref < 0 THEN 0 ELSE ev.ref, ev.auth)
-         /\ obs' = (ev.res = reply'.res /\ (reply'.res = "ok" => ev.val = reply'.v))
+    ELSE /\ BalanceStepA(ev.a, IF ev.ref < 0 THEN 0 ELSE ev.ref, ev.auth, ev.held)
+         /\ obs' = (/\ ev.res = reply'.res /\ (reply'.res = "ok" => ev.val = reply'.v)
+                    \* a save goroutine was held back only if the handler started one: an authentic, unthrottled, uncached read
+                    /\ ev.held => (reply'.res = "ok" /\ bcache[ev.a] = None))
 
 EvSeal(ev) ==
     IF ev.sealed
     THEN SealStep(ev.i, ev.r, ev.kind) /\ obs' = TRUE
     ELSE UNCHANGED <<bcache, thr, pend, reply>> /\ obs' = TRUE
+
+\* the driver lets the held save goroutines land (at most one per address is held at a time)
+EvLand(ev) ==
+    LET saves == {p \in pend : p.k = "save"} IN
+    /\ bcache' = [a \in Addr |-> IF \E p \in saves : p.a = a THEN (CHOOSE p \in saves : p.a = a).v ELSE bcache[a]]
+    /\ pend' = pend \ saves
+    /\ UNCHANGED <<thr, reply>>
+    /\ obs' = (ev.n = Cardinality(saves))
 
 EvLift(ev) == thr' = {} /\ UNCHANGED <<bcache, pend, reply>> /\ obs' = TRUE
 
@@ -48,6 +61,7 @@ TNext ==
          [] ev.e = "Bal" -> EvBal(ev)
          [] ev.e = "Seal" -> EvSeal(ev)
          [] ev.e = "Lift" -> EvLift(ev)
+         [] ev.e = "Land" -> EvLand(ev)
 
 TSpec == TInit /\ [][TNext]_tvars
 Conforms == obs
